@@ -166,10 +166,16 @@ def fields_job(spec):
         try:
             hin = base.new_header(upd)
             path = str(d / f"f_{spec['id']}_{i}.fil")
-            w = hin.prep_outfile(path)
+            # one call in three asks for another sample depth through the nbits ARGUMENT (as requantize / to_tim do); the calls of a
+            # job share one process, so whatever prep_outfile leaves behind is there for the next, plain, call
+            nb_arg = rng.choice([1, 2, 4, 8, 16, 32]) if i % 3 == 1 else None
+            w = hin.prep_outfile(path) if nb_arg is None else hin.prep_outfile(path, nbits=nb_arg)
             w.close()
             hout = Header.from_sigproc(path)
             e["fin"], e["fout"] = _proj(hin), _proj(hout)
+            if nb_arg is not None:
+                e["fin"]["nbits"] = nb_arg
+                e["cfg"]["nbits_arg"] = nb_arg
             e["outcome"] = "ok"
         except Exception as exc:  # noqa: BLE001
             e["outcome"] = f"raise:{type(exc).__name__}:{str(exc)[:60]}"
